@@ -17,7 +17,16 @@
         entered on the stack runs `pre` now and `await x` when the stack is left, whatever
         the outcome ([EnterCtx], [run_deferred]);
       - `PubSubItem.publish` raises (RuntimeError) once the item is closed; `aclose` is
-        idempotent.
+        idempotent;
+      - pluggy's `unregister(plugin=p)` raises AssertionError when p is not registered and
+        removes that one object otherwise ([has_plugin], [remove_first]).
+    Lenient (stated, not modelled): `register` of an object that is already registered raises
+    in pluggy (a fresh Continue object is created per request; the translator refuses a class
+    Continue with decorators/bases or `__eq__`/`__hash__`); `_REQUESTING.reset(token)` raises
+    for a token of another context (the generator's finally runs in the task that entered it);
+    `publish` / `aclose` / the calls of translated methods are atomic, no cancellation is
+    delivered inside them (PubSubItem.publish never suspends -- a fact of
+    nextline/utils/pubsub/item.py checked by C08's atomicity test, not re-checked here).
     The environment decides, for every await that is not translated code ([callee]: the
     body at the `yield`, the awaits of Imp, the command sent to the child): what the rest of
     the system does to the shared state meanwhile (an ARBITRARY function [e_interf], which is
@@ -126,9 +135,17 @@ Definition catches (h : hclass) (x : exc) : bool :=
   | XBaseOnly, HException => false
   end.
 
-(** the registered Continue object created for task [t] whose `_run_started` is [b] is removed *)
+(** the registry entry of the Continue object created for task [t] whose `_run_started` is [b] *)
+Definition is_plugin (t : nat) (b : bool) (x : nat * bool) : bool := Nat.eqb (fst x) t && Bool.eqb (snd x) b.
+
+Fixpoint remove_first {A} (p : A -> bool) (l : list A) : list A :=
+  match l with [] => [] | a :: r => if p a then r else a :: remove_first p r end.
+
+(** pluggy's `unregister(plugin=...)` raises AssertionError("plugin is not registered") when the
+    object is not registered, and removes that ONE object otherwise *)
+Definition has_plugin (m : state) (t : nat) (b : bool) : bool := existsb (is_plugin t b) (cont_plugins m).
 Definition unreg_m (m : state) (t : nat) (b : bool) : state :=
-  set_cont_plugins m (filter (fun x => negb (Nat.eqb (fst x) t && Bool.eqb (snd x) b)) (cont_plugins m)).
+  set_cont_plugins m (remove_first (is_plugin t b) (cont_plugins m)).
 
 Fixpoint run_deferred (e : env) (ctx : option nat) (l : list callee) (o : outc) (sh : shared) : outc * shared :=
   match l with
@@ -160,10 +177,16 @@ Fixpoint exec (s : stmt) (e : env) (cur : option exc) (sh : shared) (fr : frame)
   | Register PSelf => (Exc XStuck, sh, fr)
   | Unregister PLocal =>
       match fr_plugin fr with
-      | Some p => (Fin, set_m sh (unreg_m (sh_m sh) p (e_own_started e)), fr)
+      | Some p =>
+          if has_plugin (sh_m sh) p (e_own_started e)
+          then (Fin, set_m sh (unreg_m (sh_m sh) p (e_own_started e)), fr)
+          else (Exc XOrdinary, sh, fr)
       | None => (Exc XStuck, sh, fr)
       end
-  | Unregister PSelf => (Fin, set_m sh (unreg_m (sh_m sh) (fr_me fr) (fr_started fr)), fr)
+  | Unregister PSelf =>
+      if has_plugin (sh_m sh) (fr_me fr) (fr_started fr)
+      then (Fin, set_m sh (unreg_m (sh_m sh) (fr_me fr) (fr_started fr)), fr)
+      else (Exc XOrdinary, sh, fr)
   | CtxSet => (Fin, sh, set_ctx (set_token fr (Some (fr_ctx fr))) (fr_plugin fr))
   | CtxReset =>
       match fr_token fr with
@@ -173,7 +196,7 @@ Fixpoint exec (s : stmt) (e : env) (cur : option exc) (sh : shared) (fr : frame)
   | Yield => await e CBody sh fr
   | Await c => await e c sh fr
   | Raise => (Exc (match cur with Some x => x | None => XOrdinary end), sh, fr)
-  | Return => (Ret, sh, fr)
+  | Return | ReturnLatest | ReturnSubscribe => (Ret, sh, fr)
   | If c a b => if beval c sh fr then exec a e cur sh fr else exec b e cur sh fr
   | Try body hc hb fin =>
       let '(o1, sh1, fr1) := exec body e cur sh fr in
@@ -303,44 +326,61 @@ Proof. destruct l; simpl; [reflexivity | ]. apply Z.gtb_lt. lia. Qed.
 Lemma nonempty_match {A} (l : list A) : match l with [] => false | _ :: _ => true end = nonempty l.
 Proof. reflexivity. Qed.
 
-Lemma filter_remove_one {A} (p : A -> bool) (l : list A) (a : A) :
-  NoDup l -> In a l -> (forall x, In x l -> p x = false <-> x = a) ->
-  length (filter p l) = pred (length l).
+Lemma is_plugin_eq t b x : is_plugin t b x = true <-> x = (t, b).
 Proof.
-  induction l as [ | b l IH]; intros ND Hin Hp; [destruct Hin | ].
-  inversion ND as [ | ? ? Hnb ND']; subst. simpl.
-  destruct (p b) eqn:Eb.
-  - destruct Hin as [-> | Hin].
-    + assert (p a = false) by (apply Hp; [left | ]; reflexivity). congruence.
-    + simpl. rewrite IH; auto.
-      * destruct l; [destruct Hin | reflexivity].
-      * intros x Hx. apply Hp. right. exact Hx.
-  - assert (b = a) by (apply Hp; [left; reflexivity | exact Eb]). subst b.
-    rewrite filter_all; [reflexivity | ].
-    intros x Hx. destruct (p x) eqn:Ex; [reflexivity | ].
-    assert (x = a) by (apply Hp; [right; exact Hx | exact Ex]). subst x. contradiction.
+  destruct x as [a c]. unfold is_plugin. simpl. split.
+  - intros H. apply andb_prop in H. destruct H as [H1 H2]. apply Nat.eqb_eq in H1. apply eqb_prop in H2. congruence.
+  - intros H. inversion H. subst. rewrite Nat.eqb_refl, eqb_reflx. reflexivity.
 Qed.
 
-Lemma unreg_pred_ext t (x : nat * bool) :
-  negb (Nat.eqb (fst x) t && Bool.eqb (snd x) false) = negb (Nat.eqb (fst x) t && negb (snd x)).
-Proof. destruct x as [a []]; reflexivity. Qed.
-
-Lemma unreg_m_false m t : unreg_m m t false = unregister_cont m t.
+Lemma has_plugin_in m t b : has_plugin m t b = true <-> In (t, b) (cont_plugins m).
 Proof.
-  unfold unreg_m, unregister_cont. f_equal.
+  unfold has_plugin. rewrite existsb_exists. split.
+  - intros (x & Hin & Hp). apply is_plugin_eq in Hp. subst x. exact Hin.
+  - intros H. exists (t, b). split; [exact H | apply is_plugin_eq; reflexivity].
+Qed.
+
+Lemma remove_first_length {A} (p : A -> bool) l :
+  existsb p l = true -> length (remove_first p l) = pred (length l).
+Proof.
+  induction l as [ | a l IH]; simpl; [discriminate | ]. destruct (p a) eqn:E; simpl; [reflexivity | ].
+  intros H. rewrite IH by exact H. destruct l; [discriminate | reflexivity].
+Qed.
+
+(** with a duplicate-free registry (an invariant of the model) removing the one object is the
+    model's `filter` *)
+Lemma remove_first_filter {A} (p : A -> bool) (l : list A) (a : A) :
+  NoDup l -> (forall x, p x = true -> x = a) ->
+  remove_first p l = filter (fun x => negb (p x)) l.
+Proof.
+  intros ND Hp. induction l as [ | b l IH]; simpl; [reflexivity | ].
+  inversion ND as [ | ? ? Hnb ND']; subst.
+  destruct (p b) eqn:Eb; simpl.
+  - assert (b = a) by (apply Hp; exact Eb). subst b.
+    symmetry. apply filter_all. intros x Hx. destruct (p x) eqn:Ex; [ | reflexivity].
+    assert (x = a) by (apply Hp; exact Ex). subst x. contradiction.
+  - rewrite IH by exact ND'. reflexivity.
+Qed.
+
+Lemma unreg_m_false m t : NoDup (cont_plugins m) -> unreg_m m t false = unregister_cont m t.
+Proof.
+  intros ND. unfold unreg_m, unregister_cont. f_equal.
+  rewrite (remove_first_filter _ _ (t, false) ND) by (intros x; apply is_plugin_eq).
+  apply filter_ext. intros [a []]; reflexivity.
+Qed.
+
+Lemma unreg_m_true m t : NoDup (cont_plugins m) ->
+  unreg_m m t true = set_cont_plugins m (filter (fun x => negb (snd x && Nat.eqb (fst x) t)) (cont_plugins m)).
+Proof.
+  intros ND. unfold unreg_m. f_equal.
+  rewrite (remove_first_filter _ _ (t, true) ND) by (intros x; apply is_plugin_eq).
+  apply filter_ext. intros [a []]; unfold is_plugin; simpl; rewrite ?andb_true_r, ?andb_false_r; reflexivity.
 Qed.
 
 Lemma unreg_length m t b :
-  NoDup (cont_plugins m) -> In (t, b) (cont_plugins m) ->
+  has_plugin m t b = true ->
   length (cont_plugins (unreg_m m t b)) = pred (length (cont_plugins m)).
-Proof.
-  intros ND Hin. unfold unreg_m. simpl.
-  apply (filter_remove_one _ _ (t, b) ND Hin).
-  intros [a c] _. simpl. split.
-  - intros H. apply negb_false_iff in H. apply andb_prop in H. destruct H as [H1 H2].
-    apply Nat.eqb_eq in H1. apply eqb_prop in H2. congruence.
-  - intros H. inversion H. subst. rewrite Nat.eqb_refl, eqb_reflx. reflexivity.
-Qed.
+Proof. intros H. unfold unreg_m. simpl. apply remove_first_length. exact H. Qed.
 
 (** ---- running the interpreter symbolically ---- *)
 Ltac prog_compute m :=
@@ -380,7 +420,9 @@ Theorem requested_all_env : forall e cur sh fr,
   | None => (Fin, sh2, after_with fr)
   | Some XStuck => (Exc XStuck, sh2, after_with fr)
   | Some x =>
-      (Exc x, disable_sh (set_m sh2 (unreg_m (sh_m sh2) t (e_own_started e))), after_with fr)
+      (if has_plugin (sh_m sh2) t (e_own_started e)
+       then (Exc x, disable_sh (set_m sh2 (unreg_m (sh_m sh2) t (e_own_started e))), after_with fr)
+       else (Exc XOrdinary, sh2, after_with fr))      (* AssertionError out of unregister: no disable() *)
   end.
 Proof.
   intros e cur [m n it] [me st cx pl tk df sn] Hok Hco Hcl.
@@ -394,8 +436,10 @@ Proof.
           sh_cnt := n + 1; sh_item := false |}).
   intros [m2 n2 it2]. run. intros ->.
   destruct (e_exc e CBody) as [[ | | ] | ]; run; try reflexivity.
-  - rewrite closed_unreg. destruct (cont_closed m2) eqn:Ec; run; rewrite ?closed_unreg, ?Ec; reflexivity.
-  - rewrite closed_unreg. destruct (cont_closed m2) eqn:Ec; run; rewrite ?closed_unreg, ?Ec; reflexivity.
+  - destruct (has_plugin m2 me (e_own_started e)); run; [ | reflexivity].
+    rewrite closed_unreg. destruct (cont_closed m2) eqn:Ec; run; rewrite ?closed_unreg, ?Ec; reflexivity.
+  - destruct (has_plugin m2 me (e_own_started e)); run; [ | reflexivity].
+    rewrite closed_unreg. destruct (cont_closed m2) eqn:Ec; run; rewrite ?closed_unreg, ?Ec; reflexivity.
 Qed.
 
 (** the same generator entered when the item has been closed: `publish(True)` raises before
@@ -430,7 +474,9 @@ Theorem tie_entry : forall s t c e cur fr n,
         match e_exc e CBody with
         | None => (Fin, sh2, after_with fr)
         | Some XStuck => (Exc XStuck, sh2, after_with fr)
-        | Some x => (Exc x, disable_sh (set_m sh2 (unreg_m (sh_m sh2) t (e_own_started e))), after_with fr)
+        | Some x => (if has_plugin (sh_m sh2) t (e_own_started e)
+       then (Exc x, disable_sh (set_m sh2 (unreg_m (sh_m sh2) t (e_own_started e))), after_with fr)
+       else (Exc XOrdinary, sh2, after_with fr))      (* AssertionError out of unregister: no disable() *)
         end)) /\
   (cont_closed s = true ->
      do_call s t c = finish_call s0 t c RRuntimeError /\
@@ -519,10 +565,12 @@ Theorem tie_refuse : forall s t c e cur sh0 fr,
     counted sh' /\ coherent sh'.
 Proof.
   intros s t c e cur sh0 fr Hc Hme Hok Hco Hcl Hx Hos s1 Hint ND Hin.
+  assert (Hhas : has_plugin s1 t false = true) by (apply has_plugin_in; exact Hin).
   rewrite (requested_all_env e cur sh0 fr Hok Hco Hcl). cbv zeta. rewrite Hx, Hos, Hint, Hme.
+  cbn [sh_m]. rewrite Hhas.
   eexists. split; [reflexivity | ].
-  unfold refuse. rewrite Hc. fold s1. rewrite unreg_m_false.
-  pose proof (unreg_length s1 t false ND Hin) as Hlen. rewrite unreg_m_false in Hlen.
+  unfold refuse. rewrite Hc. fold s1. rewrite (unreg_m_false s1 t ND).
+  pose proof (unreg_length s1 t false Hhas) as Hlen. rewrite (unreg_m_false s1 t ND) in Hlen.
   assert (Hpos : (0 < length (cont_plugins s1))%nat) by (destruct (cont_plugins s1); [destruct Hin | simpl; lia]).
   unfold disable_sh, set_m, set_cnt. cbn [sh_m sh_cnt sh_item].
   change (cont_closed (unregister_cont s1 t)) with (cont_closed s1).
@@ -554,8 +602,10 @@ Proof.
   destruct (nl_started m); run; done.
 Qed.
 
-(** Nextline.close on a started object: Imp.aclose first, Continuous.close after it (and
-    only if it did not raise) *)
+(** Nextline.close on a started object: Imp.aclose first, Continuous.close after it and only
+    if it returned.  When Imp.aclose raises (any class, cancellation included) nothing of
+    Continuous changes, `Nextline._closed` is reset (close() can be called again) and the
+    exception is re-raised *)
 Theorem nl_close_exec : forall e cur sh fr,
   nl_started (sh_m sh) = true ->
   let sh0 := set_m sh (set_nl_closed (sh_m sh) true) in
@@ -564,7 +614,8 @@ Theorem nl_close_exec : forall e cur sh fr,
   exec (prog MNlClose) e cur sh fr =
   if nl_closed (sh_m sh) then (Fin, sh, fr)
   else match e_exc e CImpClose with
-       | Some x => (Exc x, sh1, fr)
+       | Some XStuck => (Exc XStuck, sh1, fr)
+       | Some x => (Exc x, set_m sh1 (set_nl_closed (sh_m sh1) false), fr)
        | None => (Fin, close_sh sh1, fr)
        end.
 Proof.
@@ -573,8 +624,26 @@ Proof.
   change (nl_started (set_nl_closed m true)) with (nl_started m). rewrite Hst. run.
   generalize (e_interf e CImpClose cx {| sh_m := set_nl_closed m true; sh_cnt := n; sh_item := it |}).
   intros [m1 n1 it1] H. cbn [sh_item] in H. subst it1.
-  destruct (e_exc e CImpClose) as [x | ]; run; [reflexivity | ].
+  destruct (e_exc e CImpClose) as [[ | | ] | ]; run; try reflexivity.
   unfold close_sh. cbn [sh_m sh_cnt sh_item]. destruct (n1 >? 0); run; reflexivity.
+Qed.
+
+(** ... and when Continuous.close itself raises (its item was closed behind its back while
+    requests are counted: publish(False) raises) the flag `Nextline._closed` is reset as well *)
+Theorem nl_close_cont_raises : forall e cur sh fr,
+  nl_started (sh_m sh) = true -> nl_closed (sh_m sh) = false -> e_exc e CImpClose = None ->
+  let sh0 := set_m sh (set_nl_closed (sh_m sh) true) in
+  let sh1 := e_interf e CImpClose (fr_ctx fr) sh0 in
+  sh_item sh1 = true -> sh_cnt sh1 > 0 ->
+  exec (prog MNlClose) e cur sh fr =
+  (Exc XOrdinary, set_m sh1 (set_nl_closed (set_cont_closed (sh_m sh1) true) false), fr).
+Proof.
+  intros e cur [m n it] [me st cx pl tk df sn] Hst Hcl Hx. cbv zeta. unfold set_m. cbn [sh_m sh_cnt sh_item fr_ctx] in *.
+  prog_compute MNlClose. run. rewrite Hcl. run.
+  change (nl_started (set_nl_closed m true)) with (nl_started m). rewrite Hst, Hx. run.
+  generalize (e_interf e CImpClose cx {| sh_m := set_nl_closed m true; sh_cnt := n; sh_item := it |}).
+  intros [m1 n1 it1] H Hn. cbn [sh_item sh_cnt] in H, Hn. subst it1.
+  assert (E : n1 >? 0 = true) by (apply Z.gtb_lt; lia). rewrite E. run. reflexivity.
 Qed.
 
 (** Nextline.close on an object that was never started: start() first *)
@@ -630,8 +699,10 @@ Proof.
           sh_cnt := n + 1; sh_item := false |}).
   intros [m2 n2 it2]. run. intros ->.
   destruct (e_exc e CImpRun) as [[ | | ] | ]; run; try reflexivity.
-  - rewrite closed_unreg. destruct (cont_closed m2) eqn:Ec; run; rewrite ?closed_unreg, ?Ec; reflexivity.
-  - rewrite closed_unreg. destruct (cont_closed m2) eqn:Ec; run; rewrite ?closed_unreg, ?Ec; reflexivity.
+  - destruct (has_plugin m2 me (e_own_started e)); run; [ | reflexivity].
+    rewrite closed_unreg. destruct (cont_closed m2) eqn:Ec; run; rewrite ?closed_unreg, ?Ec; reflexivity.
+  - destruct (has_plugin m2 me (e_own_started e)); run; [ | reflexivity].
+    rewrite closed_unreg. destruct (cont_closed m2) eqn:Ec; run; rewrite ?closed_unreg, ?Ec; reflexivity.
 Qed.
 
 (** run_continue_and_wait: `_requested` covers exactly the entering of run_session (= Imp.run());
@@ -659,8 +730,10 @@ Proof.
           sh_cnt := n + 1; sh_item := false |}).
   intros [m2 n2 it2]. run. intros ->.
   destruct (e_exc e CImpRun) as [[ | | ] | ]; run; try reflexivity.
-  - rewrite closed_unreg. destruct (cont_closed m2) eqn:Ec; run; rewrite ?closed_unreg, ?Ec; reflexivity.
-  - rewrite closed_unreg. destruct (cont_closed m2) eqn:Ec; run; rewrite ?closed_unreg, ?Ec; reflexivity.
+  - destruct (has_plugin m2 me (e_own_started e)); run; [ | reflexivity].
+    rewrite closed_unreg. destruct (cont_closed m2) eqn:Ec; run; rewrite ?closed_unreg, ?Ec; reflexivity.
+  - destruct (has_plugin m2 me (e_own_started e)); run; [ | reflexivity].
+    rewrite closed_unreg. destruct (cont_closed m2) eqn:Ec; run; rewrite ?closed_unreg, ?Ec; reflexivity.
   - destruct (e_exc e CImpWait); reflexivity.
 Qed.
 
@@ -710,19 +783,17 @@ Qed.
 Theorem on_finished_exec : forall e cur sh fr,
   coherent sh ->
   exec (prog MOnFinished) e cur sh fr =
-  if fr_started fr then (Fin, disable_sh (set_m sh (unreg_m (sh_m sh) (fr_me fr) true)), fr)
+  if fr_started fr then
+    if has_plugin (sh_m sh) (fr_me fr) true
+    then (Fin, disable_sh (set_m sh (unreg_m (sh_m sh) (fr_me fr) true)), fr)
+    else (Exc XOrdinary, sh, fr)             (* not reached: pluggy calls the hooks of registered plugins only *)
   else (Fin, sh, fr).
 Proof.
   intros e cur [m n it] [me st cx pl tk df sn] Hco. unfold coherent in Hco. simpl in Hco. subst it.
   prog_compute MOnFinished. run. destruct st; run; [ | reflexivity].
+  destruct (has_plugin m me true); run; [ | reflexivity].
   unfold disable_sh. cbn [sh_m sh_cnt sh_item set_m]. rewrite closed_unreg.
   destruct (cont_closed m) eqn:Ec; run; rewrite ?closed_unreg, ?Ec; reflexivity.
-Qed.
-
-Lemma unreg_m_true m t :
-  unreg_m m t true = set_cont_plugins m (filter (fun x => negb (snd x && Nat.eqb (fst x) t)) (cont_plugins m)).
-Proof.
-  unfold unreg_m. f_equal. apply filter_ext. intros [a []]; simpl; rewrite ?andb_true_r, ?andb_false_r; reflexivity.
 Qed.
 
 (** one unrolling of the model's [cont_finished] is the interpreted on_finished of the first
@@ -739,13 +810,15 @@ Proof.
   { assert (H : In (t, b) (filter (fun x => snd x) (cont_plugins m))) by (rewrite Hf; left; reflexivity).
     apply filter_In in H. destruct H as [H1 H2]. simpl in H2. subst b. exact H1. }
   assert (Hex := on_finished_exec e cur sh (plugin_frame (t, true) n)).
+  assert (Hhas : has_plugin m t true = true) by (apply has_plugin_in; exact Hin).
   subst r. rewrite Hex by (unfold coherent, sh; simpl; auto). cbn [plugin_frame fr_started fr_me fst snd].
-  pose proof (unreg_length m t true ND Hin) as Hlen.
+  change (sh_m sh) with m. rewrite Hhas. cbn [fst snd].
+  pose proof (unreg_length m t true Hhas) as Hlen.
   assert (Hpos : (0 < length (cont_plugins m))%nat) by (destruct (cont_plugins m); [destruct Hin | simpl; lia]).
   destruct (disable_model (set_m sh (unreg_m m t true))) as [E1 E2].
   - exact Hcl.
   - unfold sh, set_m. cbn [sh_m sh_cnt]. rewrite Hlen. lia.
-  - change (sh_m sh) with m. split; [ | exact E2]. rewrite E1. unfold sh, set_m. cbn [sh_m]. rewrite unreg_m_true.
+  - change (sh_m sh) with m. split; [ | exact E2]. rewrite E1. unfold sh, set_m. cbn [sh_m]. rewrite (unreg_m_true m t ND).
     simpl. rewrite Hf. reflexivity.
 Qed.
 
@@ -767,6 +840,7 @@ Definition is_cont_write (s : stmt) : bool :=
 
 Definition all_meths : list meth :=
   [MInit; MStart; MClose; MRunAndContinue; MRunContinueAndWait; MRequested; MDisable;
+   MAenter; MAexit; MEnabled; MSubscribeEnabled;
    MCInit; MOnStartRun; MOnStartPrompt; MOnFinished;
    MNlInit; MNlStart; MNlClose; MNlRun; MNlRunSession; MNlRunAndContinue; MNlRunContinueAndWait].
 
@@ -774,6 +848,7 @@ Definition meth_in (m : meth) (l : list meth) : bool :=
   existsb (fun k => match m, k with
                     | MInit, MInit | MStart, MStart | MClose, MClose | MRunAndContinue, MRunAndContinue
                     | MRunContinueAndWait, MRunContinueAndWait | MRequested, MRequested | MDisable, MDisable
+                    | MAenter, MAenter | MAexit, MAexit | MEnabled, MEnabled | MSubscribeEnabled, MSubscribeEnabled
                     | MCInit, MCInit | MOnStartRun, MOnStartRun | MOnStartPrompt, MOnStartPrompt
                     | MOnFinished, MOnFinished | MNlInit, MNlInit | MNlStart, MNlStart | MNlClose, MNlClose
                     | MNlRun, MNlRun | MNlRunSession, MNlRunSession | MNlRunAndContinue, MNlRunAndContinue
@@ -831,7 +906,8 @@ Proof.
   rewrite (requested_all_env e cur sh fr Hok Hco Hcl). cbv zeta.
   assert (H2 : flag_inv (e_interf e CBody (Some (fr_me fr)) (mkSh (entry_m (sh_m sh) (fr_me fr)) (sh_cnt sh + 1) false))).
   { apply Hfl. apply flag_entry; assumption. }
-  destruct (e_exc e CBody) as [[ | | ] | ]; cbn [fst snd]; try exact H2; apply flag_disable, flag_unreg, H2.
+  destruct (e_exc e CBody) as [[ | | ] | ]; cbn [fst snd]; try exact H2;
+    (destruct (has_plugin _ _ _); cbn [fst snd]; [apply flag_disable, flag_unreg, H2 | exact H2]).
 Qed.
 
 (** ==== the refusal on reachable states of the model ==== *)
@@ -904,3 +980,30 @@ Example ex_refused_nonvacuous :
   rev (cpubs (trace (sh_m sh'))) = [true; true; true] /\ fr_ctx fr' = None /\
   env_ok ex_env /\ coherent ex_sh /\ counted ex_sh /\ flag_inv ex_sh /\ flag_inv sh'.
 Proof. vm_compute. repeat split; intros; auto. Qed.
+
+(** ==== `async with continuous:` and the read accessors ==== *)
+Theorem aenter_exec : forall e cur sh fr,
+  exec (prog MAenter) e cur sh fr = exec (prog MStart) e cur sh fr.
+Proof.
+  intros e cur [m n it] [me st cx pl tk df sn]. unfold prog.
+  let p := eval vm_compute in (inline 64 (resolve MAenter)) in change (inline 64 (resolve MAenter)) with p.
+  let p := eval vm_compute in (inline 64 (resolve MStart)) in change (inline 64 (resolve MStart)) with p.
+  run. destruct it; reflexivity.
+Qed.
+
+Theorem aexit_exec : forall e cur sh fr,
+  exec (prog MAexit) e cur sh fr = exec (prog MClose) e cur sh fr.
+Proof.
+  intros e cur [m n it] [me st cx pl tk df sn]. unfold prog.
+  let p := eval vm_compute in (inline 64 (resolve MAexit)) in change (inline 64 (resolve MAexit)) with p.
+  let p := eval vm_compute in (inline 64 (resolve MClose)) in change (inline 64 (resolve MClose)) with p.
+  run. destruct it; destruct (n >? 0); reflexivity.
+Qed.
+
+(** PIN (reflexivity against the expected term, no semantics): `enabled` is exactly
+    `return self._pubsub_enabled.latest()` -- the latest published value, [enabled_of] -- and
+    `subscribe_enabled` exactly `return self._pubsub_enabled.subscribe()`; a default, a
+    fallback or a cached value instead is refused by the translator or breaks this *)
+Theorem accessors_pinned :
+  resolve MEnabled = ReturnLatest /\ resolve MSubscribeEnabled = ReturnSubscribe.
+Proof. split; reflexivity. Qed.
